@@ -332,9 +332,46 @@ def _r3_r4(ctx):
               "an iteration can continue to the next instruction without applying the post-index change (or "
               "applies it before the tests)", fd.qname, U(post[0]))
     # initial state: the producer's own changes
-    init = [a for a in ast.walk(fd.node) if isinstance(a, ast.Assign) and U(a.targets[0]) == state
-            and C.is_call_to(a.value, "_update_reg_changes")]
-    ctx.check(len(init) == 1 and cfg.dominates(init[0], loop) and not C.in_subtree(init[0], loop), "R4",
+    init_all = [a for a in ast.walk(fd.node) if isinstance(a, ast.Assign) and U(a.targets[0]) == state]
+    init = [a for a in init_all if C.is_call_to(a.value, "_update_reg_changes")]
+    copied = None
+    if not init and len(init_all) == 1:
+        # the producer's own changes computed once and every scan started from a copy of them: the scan replaces entries of
+        # the state AND edits the per-register dicts in place, so the copy must be fresh at both levels
+        v = init_all[0].value
+
+        def hoisted(x):
+            if not isinstance(x, ast.Name):
+                return False
+            ds = [a for a in C.assigns_to(fd.node, x.id) if isinstance(a, ast.Assign)]
+            return len(ds) == 1 and C.is_call_to(ds[0].value, "_update_reg_changes") and cfg.dominates(ds[0], init_all[0]) \
+                and len(ds[0].value.args) == 1 and not ds[0].value.keywords
+
+        def fresh_inner(e, var):
+            if isinstance(e, ast.IfExp):
+                arms = [a for a in (e.body, e.orelse) if not (isinstance(a, ast.Constant) and a.value is None)]
+                return len(arms) == 1 and fresh_inner(arms[0], var)
+            return (C.is_call_to(e, "dict", "deepcopy") and len(e.args) == 1 and U(e.args[0]) == var) or U(e) in (
+                "%s.copy()" % var, "{**%s}" % var)
+        if C.is_call_to(v, "deepcopy") and len(v.args) == 1 and hoisted(v.args[0]):
+            copied = "deep"
+        elif isinstance(v, ast.DictComp) and len(v.generators) == 1 and not v.generators[0].ifs \
+                and isinstance(v.generators[0].iter, ast.Call) and U(v.generators[0].iter.func).endswith(".items") \
+                and hoisted(v.generators[0].iter.func.value) and isinstance(v.generators[0].target, ast.Tuple) \
+                and len(v.generators[0].target.elts) == 2 and U(v.key) == U(v.generators[0].target.elts[0]):
+            copied = "deep" if fresh_inner(v.value, U(v.generators[0].target.elts[1])) else "shallow"
+        elif (C.is_call_to(v, "dict") and len(v.args) == 1 and hoisted(v.args[0])) or (
+                isinstance(v, ast.Call) and isinstance(v.func, ast.Attribute) and v.func.attr == "copy" and hoisted(v.func.value)):
+            copied = "shallow"
+        if copied == "deep":
+            init = init_all
+        elif copied == "shallow":
+            ctx.node_bad("R4", fd, init_all[0], "every scan starts from `%s`, a copy of the producer's changes that shares the per-register "
+                         "dicts: the scan edits those in place (`state[reg]['value'] += ...`), so later destination operands start from the "
+                         "changes accumulated over the previous scan" % U(v)[:120], instance="state initialisation")
+            return
+    ctx.judge(len(init) == 1 and cfg.dominates(init[0], loop) and not C.in_subtree(init[0], loop),
+              bool(init) or not init_all or copied is not None or len(init_all) != 1, "R4",
               "tracked state is (re)initialised from the producer before each scan", fd.where(loop),
               "the register-change state is not freshly initialised from the producing instruction before the scan",
               fd.qname, "state initialisation")
